@@ -1,7 +1,7 @@
 from props import job
 
 PROP = dict(
-    technique='the C01 state machine with generated cuts (drop in-flight messages, reload both, reestablish); model-based oracle for exactly-what-is-missing retransmission incl. order; acceptance of every retransmitted message',
+    technique='the C01 state machine with generated cuts (drop in-flight messages, reload both, reestablish) and database-write-failure actions; channel_reestablish fields compared with the bookkeeping model; model-based oracle for exactly-what-is-missing retransmission incl. order; acceptance of every retransmitted message',
     level="fault_enumeration",
     rule=("C01's generated schedules plus a `cut` action at generated points (also exactly between receiving a "
           "commit_sig and revoking): everything in flight is dropped, both sides are rebuilt from their databases and "
@@ -12,7 +12,7 @@ PROP = dict(
     assumptions=[
         "a reconnect is modelled as both peers reloading from disk (lnd builds a new LightningChannel per connection)",
         "channel_ready re-send at height 0 is a no-op for already initialised revocation points",
-        "bbolt backend only",
+        "backends: bbolt (quick, thorough) and lnd's SQL-backed kvdb on sqlite (thorough job, build tag kvdb_sqlite)",
     ],
     jobs=dict(
         quick=[job("lnwallet", "^TestVerifC03", ["TestVerifC03Resync"], 60, shards=8, timeout=600,
